@@ -529,10 +529,13 @@ static void fault_tables(void)
 }
 
 /* ------------------------------------------------------------------ synchronisation under allocation failure */
-enum { R_DELTA_OK, R_DELTA_FAIL, R_RELOAD_OK, R_RELOAD_FAIL, R_RELOAD_EMPTY, R_DELTA_BULK, R_DELTA_BULK_FAIL, R_RELOAD_BULK, R__N };
+enum { R_DELTA_OK, R_DELTA_FAIL, R_RELOAD_OK, R_RELOAD_FAIL, R_RELOAD_EMPTY, R_DELTA_BULK, R_DELTA_BULK_FAIL, R_RELOAD_BULK,
+       R_DELTA_FAIL_V4, R_DELTA_FAIL_V6, R__N };
 static const char *R_NAME[R__N] = {"delta ok", "delta failing at its last PDU (rollback)", "reload with a new set", "reload failing (duplicate)", "reload with the empty set",
 				   "delta of 3 x 101 records (PDU stores grow)", "delta of 3 x 101 records failing at its last PDU (rollback)",
-				   "reload with 3 x 101 records"};
+				   "reload with 3 x 101 records",
+				   "delta failing at an IPv4 PDU after two withdrawals (rollback re-adds)",
+				   "delta failing at an IPv6 PDU after an IPv4 withdrawal (rollback across families)"};
 
 /* numbered records outside the universe: 101 per family, one more than the step by which the PDU stores grow */
 #define BULK_N 101
@@ -609,6 +612,17 @@ static int do_sync(int kind)
 	case R_DELTA_BULK:
 	case R_RELOAD_BULK:
 		put_bulk(&b);
+		break;
+	case R_DELTA_FAIL_V4:
+		cache_put_record(&b, 1, 0, 0);
+		cache_put_record(&b, 1, 1, 0);
+		cache_put_record(&b, 1, 2, 1);
+		cache_put_record(&b, 1, 2, 1); /* duplicate: the undo removes record 2 and re-adds records 1 and 0 (allocations) */
+		break;
+	case R_DELTA_FAIL_V6:
+		cache_put_record(&b, 1, 0, 0);
+		cache_put_record(&b, 1, 4, 1);
+		cache_put_record(&b, 1, 4, 1); /* duplicate IPv6: the undo crosses into the IPv4 PDUs */
 		break;
 	case R_DELTA_BULK_FAIL:
 		put_bulk(&b);
